@@ -1,7 +1,7 @@
 #![no_main]
-// Generic E4 target: the input bytes are the random stream of proptest's pass-through RNG, so the
-// coverage-guided engine drives the same generator and oracle as the proptest sub-check selected by
-// VERIF_FUZZ_PROP / VERIF_FUZZ_SUB.  An unlisted violation aborts (crash artifact).
+// Generic E4 target: the input bytes are decoded structure-aware (serde over the bytes, vcore/bytede.rs)
+// into the case type of the proptest sub-check selected by VERIF_FUZZ_PROP / VERIF_FUZZ_SUB and judged
+// by that sub-check's oracle.  An unlisted violation aborts (crash artifact).
 use libfuzzer_sys::fuzz_target;
 fuzz_target!(|data: &[u8]| {
     vcheck::props::fuzz_entry::generic(data);
